@@ -163,3 +163,214 @@ package filesys
 //@   loop 1 invariant [names is private storage] names.arr == 0 || fresh(names)
 //@   loop 1 invariant [nothing else touched] modifies_only(held_w)
 //@   loop 1 invariant [lock held] held_w == old(held_w)[&fs.m := true]
+
+// =====================================================================================
+// DirFs. Kernel ghost state (trusted POSIX model; each call atomic; one owner of the tree):
+//   kdent  directory inode -> name -> inode (0: no entry)     kisdir inode is a directory
+//   kdata/ksize volatile contents, kddata/kdsize the durable copies (what a crash keeps)
+//   fopen/fino/foff/fwr/frd  descriptor table
+// Every call may fail with some err != nil (this is how an injected failure of any single
+// call is covered) and then leaves the state unchanged; nofault() says that calls only
+// fail for the documented reasons.
+
+//@ ghost var kdent map[Int]map[string]Int
+//@ ghost var kisdir map[Int]bool
+//@ ghost var kdata map[Int]map[int64]byte
+//@ ghost var ksize map[Int]int64
+//@ ghost var kddata map[Int]map[int64]byte
+//@ ghost var kdsize map[Int]int64
+//@ ghost var fopen map[int]bool
+//@ ghost var fino map[int]Int
+//@ ghost var foff map[int]int64
+//@ ghost var fwr map[int]bool
+//@ ghost var frd map[int]bool
+//@ ghost func nofault() bool
+
+//@ ghost func pjoin(d string, n string) string
+//@ ghost func pdir(p string) string
+//@ ghost func pname(p string) string
+//@ axiom path_join_simple: forall d string, n string :: simple(d) && simple(n) ==> pdir(pjoin(d, n)) == d && pname(pjoin(d, n)) == n && !simple(pjoin(d, n))
+//@ axiom path_simple: forall n string :: simple(n) ==> pdir(n) == "" && pname(n) == n && n != ""
+//@ axiom path_tmp: forall n string :: simple(n) ==> simple(n + ".tmp") && n + ".tmp" != n
+//@ assume func path.Join (elem)
+//@   ensures len(elem) == 2 ==> result == pjoin(elem[0], elem[1])
+
+// parent directory inode of a path relative to directory inode r; inode bound to a path
+//@ ghost func pparent(r Int, p string) Int = pdir(p) == "" ? r : kdent[r][pdir(p)]
+//@ ghost func plook(r Int, p string) Int = kdent[pparent(r, p)][pname(p)]
+//@ ghost func kunchanged() bool = kdent == old(kdent) && kisdir == old(kisdir) && kdata == old(kdata) && ksize == old(ksize) && kddata == old(kddata) && kdsize == old(kdsize) && fopen == old(fopen) && fino == old(fino) && foff == old(foff) && fwr == old(fwr) && frd == old(frd)
+// inode j is not in use in the old state
+//@ ghost func kunused(j Int) bool = (forall d Int, n string :: old(kdent)[d][n] != j) && (forall f int :: old(fopen)[f] ==> old(fino)[f] != j)
+
+//@ assume func golang.org/x/sys/unix.Openat (dirfd, path, flags, mode)
+//@   requires fopen[dirfd]
+//@   modifies kdent, kisdir, kdata, ksize, kddata, kdsize, fopen, fino, foff, fwr, frd
+//@   ensures result.1 != nil ==> kunchanged()
+//@   ensures result.1 == error(unix.EEXIST) <==> (result.1 != nil && flags & unix.O_CREAT != 0 && flags & unix.O_EXCL != 0 && old(plook(fino[dirfd], path)) != 0 && old(pparent(fino[dirfd], path)) != 0)
+//@   ensures result.1 == nil ==> old(pparent(fino[dirfd], path)) != 0 && plook(old(fino)[dirfd], path) != 0
+//@   ensures result.1 == nil ==> !old(fopen)[result.0] && result.0 >= 0 && fopen == old(fopen)[result.0 := true] && fino == old(fino)[result.0 := plook(old(fino)[dirfd], path)] && foff == old(foff)[result.0 := 0]
+//@   ensures result.1 == nil ==> fwr == old(fwr)[result.0 := (flags & 3 != 0)] && frd == old(frd)[result.0 := (flags & 3 != 1)]
+//@   ensures result.1 == nil && flags & 3 != 0 ==> !kisdir[fino[result.0]]
+//@   ensures result.1 == nil && flags & unix.O_DIRECTORY != 0 ==> kisdir[fino[result.0]]
+//@   ensures result.1 == nil && old(plook(fino[dirfd], path)) != 0 ==> !(flags & unix.O_CREAT != 0 && flags & unix.O_EXCL != 0) && kdent == old(kdent) && kisdir == old(kisdir) && kddata == old(kddata) && kdsize == old(kdsize) && kdata == old(kdata)
+//@   ensures result.1 == nil && old(plook(fino[dirfd], path)) != 0 ==> ksize == (flags & unix.O_TRUNC != 0 && flags & 3 != 0 ? old(ksize)[fino[result.0] := 0] : old(ksize))
+//@   ensures result.1 == nil && old(plook(fino[dirfd], path)) == 0 ==> flags & unix.O_CREAT != 0 && kunused(fino[result.0]) && kdent == old(kdent)[old(pparent(fino[dirfd], path)) := old(kdent)[old(pparent(fino[dirfd], path))][pname(path) := fino[result.0]]]
+//@   ensures result.1 == nil && old(plook(fino[dirfd], path)) == 0 ==> kisdir == old(kisdir)[fino[result.0] := false] && ksize == old(ksize)[fino[result.0] := 0] && kdsize == old(kdsize)[fino[result.0] := 0] && kdata == old(kdata) && kddata == old(kddata)
+
+//@ assume func golang.org/x/sys/unix.Write (fd, p)
+//@   requires fopen[fd]
+//@   modifies kdata, ksize, foff
+//@   ensures result.1 != nil ==> kdata == old(kdata) && ksize == old(ksize) && foff == old(foff)
+//@   ensures result.1 == nil ==> fwr[fd] && 0 <= result.0 && result.0 <= len(p)
+//@   ensures result.1 == nil ==> foff == old(foff)[fd := old(foff)[fd] + int64(result.0)] && ksize == old(ksize)[fino[fd] := max(old(ksize)[fino[fd]], old(foff)[fd] + int64(result.0))]
+//@   ensures result.1 == nil ==> forall i Int :: i != fino[fd] ==> kdata[i] == old(kdata)[i]
+//@   ensures result.1 == nil ==> forall k int64 :: kdata[fino[fd]][k] == (old(foff)[fd] <= k && k < old(foff)[fd] + int64(result.0) ? p[int(k - old(foff)[fd])] : old(kdata)[fino[fd]][k])
+
+//@ assume func golang.org/x/sys/unix.Pread (fd, p, offset)
+//@   requires fopen[fd]
+//@   modifies p
+//@   ensures result.1 == nil ==> frd[fd] && offset >= 0 && 0 <= result.0 && result.0 <= len(p)
+//@   ensures nofault() && frd[fd] && offset >= 0 && !kisdir[fino[fd]] ==> result.1 == nil
+//@   ensures result.1 == nil && !kisdir[fino[fd]] ==> int64(result.0) == min(int64(len(p)), max(0, ksize[fino[fd]] - offset))
+//@   ensures result.1 == nil ==> forall i int :: 0 <= i && i < result.0 ==> p[i] == kdata[fino[fd]][offset + int64(i)]
+//@   ensures forall i int :: 0 <= i && i < len(p) && (result.1 != nil || i >= result.0) ==> p[i] == old(p[i])
+
+//@ assume func golang.org/x/sys/unix.Fsync (fd)
+//@   requires fopen[fd]
+//@   modifies kddata, kdsize
+//@   ensures result != nil ==> kddata == old(kddata) && kdsize == old(kdsize)
+//@   ensures result == nil ==> kddata == old(kddata)[fino[fd] := kdata[fino[fd]]] && kdsize == old(kdsize)[fino[fd] := ksize[fino[fd]]]
+
+//@ assume func golang.org/x/sys/unix.Close (fd)
+//@   modifies fopen
+//@   ensures result == nil ==> fopen == old(fopen)[fd := false]
+//@   ensures result != nil ==> fopen == old(fopen)
+
+//@ assume func golang.org/x/sys/unix.Mkdirat (dirfd, path, mode)
+//@   requires fopen[dirfd]
+//@   modifies kdent, kisdir
+//@   ensures result != nil ==> kdent == old(kdent) && kisdir == old(kisdir)
+//@   ensures result == nil ==> old(plook(fino[dirfd], path)) == 0 && old(pparent(fino[dirfd], path)) != 0 && plook(fino[dirfd], path) != 0 && kunused(plook(fino[dirfd], path))
+//@   ensures result == nil ==> kdent == old(kdent)[old(pparent(fino[dirfd], path)) := old(kdent)[old(pparent(fino[dirfd], path))][pname(path) := plook(fino[dirfd], path)]] && kisdir == old(kisdir)[plook(fino[dirfd], path) := true]
+
+//@ assume func golang.org/x/sys/unix.Unlinkat (dirfd, path, flags)
+//@   requires fopen[dirfd]
+//@   modifies kdent
+//@   ensures result != nil ==> kdent == old(kdent)
+//@   ensures result == nil ==> old(plook(fino[dirfd], path)) != 0 && !kisdir[old(plook(fino[dirfd], path))] && kdent == old(kdent)[old(pparent(fino[dirfd], path)) := old(kdent)[old(pparent(fino[dirfd], path))][pname(path) := 0]]
+
+//@ assume func golang.org/x/sys/unix.Linkat (olddirfd, oldpath, newdirfd, newpath, flags)
+//@   requires fopen[olddirfd] && fopen[newdirfd]
+//@   modifies kdent
+//@   ensures result != nil ==> kdent == old(kdent)
+//@   ensures result == nil ==> old(plook(fino[olddirfd], oldpath)) != 0 && old(plook(fino[newdirfd], newpath)) == 0 && old(pparent(fino[newdirfd], newpath)) != 0
+//@   ensures result == nil ==> kdent == old(kdent)[old(pparent(fino[newdirfd], newpath)) := old(kdent)[old(pparent(fino[newdirfd], newpath))][pname(newpath) := old(plook(fino[olddirfd], oldpath))]]
+
+//@ assume func golang.org/x/sys/unix.Renameat (olddirfd, oldpath, newdirfd, newpath)
+//@   requires fopen[olddirfd] && fopen[newdirfd]
+//@   modifies kdent
+//@   ensures result != nil ==> kdent == old(kdent)
+//@   ensures result == nil ==> old(plook(fino[olddirfd], oldpath)) != 0 && old(pparent(fino[newdirfd], newpath)) != 0 && !kisdir[old(plook(fino[newdirfd], newpath))]
+//@   ensures result == nil ==> forall d Int, n string :: kdent[d][n] == (d == old(pparent(fino[newdirfd], newpath)) && n == pname(newpath) ? old(plook(fino[olddirfd], oldpath)) : (d == old(pparent(fino[olddirfd], oldpath)) && n == pname(oldpath) ? 0 : old(kdent)[d][n]))
+
+// ---- DirFs against the reference model: names(d, n) = kdent[kdent[R][d]][n] with R = fino[fs.rootFd] ----
+
+//@ ghost func droot(fs DirFs) Int = fino[fs.rootFd]
+//@ ghost func ddir(fs DirFs, d string) Int = kdent[fino[fs.rootFd]][d]
+//@ ghost func dname(fs DirFs, d string, n string) Int = kdent[kdent[fino[fs.rootFd]][d]][n]
+//@ ghost func dinv(fs DirFs) bool = fopen[fs.rootFd] && kisdir[fino[fs.rootFd]] && fino[fs.rootFd] != 0
+//@ ghost func disdir(fs DirFs, d string) bool = simple(d) && kdent[fino[fs.rootFd]][d] != 0 && kisdir[kdent[fino[fs.rootFd]][d]]
+
+//@ props C12
+
+//@ func (DirFs).Mkdir
+//@   requires dinv(fs) && simple(p)
+//@   may_panic
+//@   ensures [directory exists afterwards] disdir(fs, p)
+//@   ensures [every other entry unchanged] forall d Int, n string :: !(d == droot(fs) && n == p) ==> kdent[d][n] == old(kdent)[d][n]
+//@   modifies kdent, kisdir
+
+//@ func (DirFs).Create
+//@   requires dinv(fs) && disdir(fs, dir) && simple(fname)
+//@   may_panic
+//@   ensures [fails without side effects iff the name exists] old(dname(fs, dir, fname)) != 0 ==> result.0 == File(-1) && !result.1 && kunchanged()
+//@   ensures [failure reports -1 and changes nothing] !result.1 ==> result.0 == File(-1) && kunchanged()
+//@   ensures [success binds the name to a new empty inode] result.1 ==> old(dname(fs, dir, fname)) == 0 && dname(fs, dir, fname) == fino[int(result.0)] && kunused(fino[int(result.0)]) && ksize[fino[int(result.0)]] == 0
+//@   ensures [fresh descriptor, open for append at offset 0] result.1 ==> !old(fopen)[int(result.0)] && fopen[int(result.0)] && fwr[int(result.0)] && foff[int(result.0)] == 0
+//@   ensures [all other names and contents unchanged] result.1 ==> (forall d Int, n string :: !(d == ddir(fs, dir) && n == fname) ==> kdent[d][n] == old(kdent)[d][n]) && kdata == old(kdata) && (forall i Int :: i != fino[int(result.0)] ==> ksize[i] == old(ksize)[i])
+//@   modifies kdent, kisdir, kdata, ksize, kddata, kdsize, fopen, fino, foff, fwr, frd
+
+//@ func (DirFs).Append
+//@   requires [descriptor open for append, positioned at the end] fopen[int(f)] && fwr[int(f)] && foff[int(f)] == ksize[fino[int(f)]] && ksize[fino[int(f)]] >= 0 && ksize[fino[int(f)]] < 0x1000000000000
+//@   may_panic
+//@   ensures [length grows by len(data)] ksize[fino[int(f)]] == old(ksize)[fino[int(f)]] + int64(len(data))
+//@   ensures [old contents kept, data appended] forall k int64 :: kdata[fino[int(f)]][k] == (old(ksize)[fino[int(f)]] <= k && k < old(ksize)[fino[int(f)]] + int64(len(data)) ? data[int(k - old(ksize)[fino[int(f)]])] : old(kdata)[fino[int(f)]][k])
+//@   ensures [other files untouched] forall i Int :: i != fino[int(f)] ==> kdata[i] == old(kdata)[i] && ksize[i] == old(ksize)[i]
+//@   ensures [still positioned at the end] foff[int(f)] == ksize[fino[int(f)]]
+//@   modifies kdata, ksize, foff
+
+//@ func (DirFs).Close
+//@   requires fopen[int(f)]
+//@   may_panic
+//@   ensures [descriptor released, nothing else] !fopen[int(f)] && forall g int :: g != int(f) ==> fopen[g] == old(fopen)[g]
+//@   modifies fopen
+
+//@ func (DirFs).Open
+//@   requires dinv(fs) && disdir(fs, dir) && simple(fname)
+//@   may_panic
+//@   ensures [fresh descriptor on the named inode, readable] !old(fopen)[int(result)] && fopen[int(result)] && frd[int(result)] && fino[int(result)] == dname(fs, dir, fname) && dname(fs, dir, fname) != 0
+//@   ensures [other descriptors untouched] forall g int :: g != int(result) ==> fopen[g] == old(fopen)[g] && fino[g] == old(fino)[g] && foff[g] == old(foff)[g] && frd[g] == old(frd)[g] && fwr[g] == old(fwr)[g]
+//@   ensures [file system unchanged] kdent == old(kdent) && kdata == old(kdata) && ksize == old(ksize)
+//@   modifies kdent, kisdir, kdata, ksize, kddata, kdsize, fopen, fino, foff, fwr, frd
+
+//@ func (DirFs).ReadAt
+//@   requires fopen[int(f)] && frd[int(f)] && !kisdir[fino[int(f)]] && ksize[fino[int(f)]] >= 0
+//@   requires [length is allocatable] length < 0x1000000000000
+//@   may_panic
+//@   panics_only_if [valid reads never fail] !nofault()
+//@   ensures [exactly the bytes of offset..offset+length that exist] int64(offset) >= 0 ==> uint64(len(result)) == (offset >= uint64(ksize[fino[int(f)]]) ? 0 : min(length, uint64(ksize[fino[int(f)]]) - offset))
+//@   ensures [contents] forall i uint64 :: i < uint64(len(result)) ==> result[i] == kdata[fino[int(f)]][int64(offset + i)]
+//@   ensures [result is fresh storage] fresh(result)
+
+//@ func (DirFs).Delete
+//@   requires dinv(fs) && disdir(fs, dir) && simple(fname)
+//@   may_panic
+//@   ensures [name removed, it existed, every other name untouched] old(dname(fs, dir, fname)) != 0 && forall d Int, n string :: kdent[d][n] == (d == ddir(fs, dir) && n == fname ? 0 : old(kdent)[d][n])
+//@   modifies kdent
+
+//@ func (DirFs).Link
+//@   requires dinv(fs) && disdir(fs, oldDir) && disdir(fs, newDir) && simple(oldName) && simple(newName)
+//@   ensures [existing target: false] old(dname(fs, newDir, newName)) != 0 ==> !result
+//@   ensures [failure changes nothing] !result ==> kdent == old(kdent)
+//@   ensures [success: both names share the inode, others untouched] result ==> old(dname(fs, oldDir, oldName)) != 0 && forall d Int, n string :: kdent[d][n] == (d == ddir(fs, newDir) && n == newName ? old(dname(fs, oldDir, oldName)) : old(kdent)[d][n])
+//@   modifies kdent
+
+//@ props C13
+
+// target is as it was before (volatile and durable state of its inode untouched) ...
+//@ ghost func asbefore(fs DirFs, dir string, fname string) bool = dname(fs, dir, fname) == old(dname(fs, dir, fname))
+// ... or holds exactly x, durably; in both cases the previous inode is untouched
+//@ ghost func holds(i Int, x []byte) bool = i != 0 && ksize[i] == int64(len(x)) && kdsize[i] == int64(len(x)) && (forall k int64 :: 0 <= k && k < int64(len(x)) ==> kdata[i][k] == x[int(k)] && kddata[i][k] == x[int(k)])
+//@ ghost func untouched(i Int) bool = i != 0 ==> kdata[i] == old(kdata)[i] && ksize[i] == old(ksize)[i] && kddata[i] == old(kddata)[i] && kdsize[i] == old(kdsize)[i]
+
+//@ func (DirFs).AtomicCreate
+//@   let data0 = data
+//@   requires dinv(fs) && disdir(fs, dir) && simple(fname) && len(data) < 0x10000000000
+//@   requires [files only below a directory] forall n string :: !kisdir[dname(fs, dir, n)]
+//@   requires [a leftover temp file is not the target itself] dname(fs, dir, fname + ".tmp") == 0 || dname(fs, dir, fname + ".tmp") != dname(fs, dir, fname)
+//@   requires [sizes are sane] forall i Int :: 0 <= ksize[i] && ksize[i] < 0x1000000000000
+//@   may_panic
+//@   crash_invariant [target is as before or exactly data, at every step and after a crash] untouched(old(dname(fs, dir, fname))) && (asbefore(fs, dir, fname) || holds(dname(fs, dir, fname), data0))
+//@   crash_invariant [only dir/name and dir/name.tmp are touched] forall d Int, n string :: !(d == ddir(fs, dir) && (n == fname || n == fname + ".tmp")) ==> kdent[d][n] == old(kdent)[d][n]
+//@   ensures [file contains exactly data, durably, whatever was left behind] holds(dname(fs, dir, fname), data0)
+//@   ensures [previous inode untouched] untouched(old(dname(fs, dir, fname)))
+//@   ensures [only dir/name and dir/name.tmp are touched] forall d Int, n string :: !(d == ddir(fs, dir) && (n == fname || n == fname + ".tmp")) ==> kdent[d][n] == old(kdent)[d][n]
+//@   ensures [temp name is gone] dname(fs, dir, fname + ".tmp") == 0
+//@   ensures [other files' contents untouched] forall i Int :: i != dname(fs, dir, fname) ==> kdata[i] == old(kdata)[i] || i == old(dname(fs, dir, fname + ".tmp")) 
+//@   modifies kdent, kisdir, kdata, ksize, kddata, kdsize, fopen, fino, foff, fwr, frd
+//@   loop 1 invariant [descriptor on the temp inode] fopen[fd] && fwr[fd] && fino[fd] == dname(fs, dir, fname + ".tmp") && fino[fd] != 0 && fino[fd] != old(dname(fs, dir, fname)) && fd != fs.rootFd
+//@   loop 1 invariant [root still open] fopen[fs.rootFd] && fino[fs.rootFd] == old(fino)[fs.rootFd]
+//@   loop 1 invariant [directory entries: only the temp name changed] forall d Int, n string :: !(d == ddir(fs, dir) && n == fname + ".tmp") ==> kdent[d][n] == old(kdent)[d][n]
+//@   loop 1 invariant [remaining data is a suffix] data.arr == data0.arr && data.off + len(data) == data0.off + len(data0) && len(data) <= len(data0)
+//@   loop 1 invariant [written so far] foff[fd] == int64(len(data0) - len(data)) && ksize[fino[fd]] == foff[fd] && (forall k int64 :: 0 <= k && k < foff[fd] ==> kdata[fino[fd]][k] == data0[int(k)])
+//@   loop 1 invariant [nothing else modified] (forall i Int :: i != fino[fd] ==> kdata[i] == old(kdata)[i] && ksize[i] == old(ksize)[i] && kddata[i] == old(kddata)[i] && kdsize[i] == old(kdsize)[i]) && kisdir[ddir(fs, dir)] && !kisdir[fino[fd]]
